@@ -29,7 +29,10 @@ EXTRA = [
     "$[?length(@.a) == length(@.b)]", "$[?value(@..a) == null && !match(@.b, 'c')]", "$[?@[?@[?@.a == $.b]]]", "$[?@.a, ?@.b]",
     # number literals that need 16 or 17 significant digits (outside the model's exact range: judged on behaviour)
     "$[?@ == 0.30000000000000004]", "$[?@ == 1.0000000000000002]", "$[?@ < 0.9999999999999999]", "$[?@ == 2251799813685249.5]",
-    "$[?@ != 123456789.12345679]", "$[?@ == 1.0e400]", "$[?@ > -1.0e999]", "$[?@ == 2.0e308]", "$[?@ < 1.5e308]", "$[?@ == 1.0e-400]", "$[?@ == 1.0E+400 || @ == 1]", "$[?@ >= 1.0000000000000001e-7]", "$[?@ == 9007199254740993]", "$[?@ == 1e22]", "$[?@ == 12345678901234567890]",
+    "$[?@ != 123456789.12345679]", "$[?@ == 1.0e400]", "$[?@ > -1.0e999]", "$[?@ == 2.0e308]", "$[?@ < 1.5e308]", "$[?@ == 1.0e-400]", "$[?@ == 1.0E+400 || @ == 1]",
+    # integer literals with exponents far beyond what a double or a decimal string conversion holds (accepted or refused - but whatever
+    # compiles must serialise)
+    "$[?@ == 1e400]", "$[?@ == 1e4300]", "$[?@ < 12e4299]", "$[?@ > -1e5000]", "$[?@ == 1e309]", "$[?@ == 9e307]", "$[?@ != 1e308]", "$[?@ >= 1.0000000000000001e-7]", "$[?@ == 9007199254740993]", "$[?@ == 1e22]", "$[?@ == 12345678901234567890]",
     "$[-5:]", "$[-9:2]", "$[:-9]", "$[0][-5:]", "$..[-3:]", "$[-2:]", "$[-1:-9]", "$[9:]", "$[0][-4:-1]", "$.a[-7:]", "$[5][-3:1]", "$[?@[-3:]]",
     "$[?gl2(!@.a)]" if False else "$[?@['a b'] == 1]", "$[?$['\\n'] == @['\\t']]", "$[?@[0] == $[-1]]", "$[?true == false]", "$[?null == @]",
 ]
